@@ -58,7 +58,8 @@ def check_decode(ck, F, rule):
     ck.require(ok, rule, "from_bytes:validated-decoder", f"from_bytes must decode with exactly one call of deserialize_compressed (Compress::Yes, Validate::Yes); calls: {calls}", where)
     I = H.new_interp(F)
     try:
-        ret = I.call_fn(P_FROM, [Bytes([("input", "slice")])])
+        inp = Bytes([("input", "slice")])
+        ret = I.call_fn(P_FROM, [inp])
     except Unanalysable as u:
         ck.fail(rule, "from_bytes:shape", f"unanalysable: {u.msg}", u.where or where, kind="unanalysable")
         return
@@ -80,8 +81,12 @@ def check_decode(ck, F, rule):
             guards = [(None, c_, e_) for c_, e_, _ in chain]
     good = isinstance(okv, Opaque) and okv.what == "decoded" and okv.info.get("via") == "deserialize_compressed" and isinstance(errv, Enum) and errv.variant == "FormatError" and "R1CSError" in errv.path
     ck.require(good and not guards, rule, "from_bytes:all-failures-FormatError", f"from_bytes must return the decoded proof when decoding is Ok and Err(R1CSError::FormatError) otherwise, with no other exit; got {why}, early exits {[(str(g[1]), repr(g[2])) for g in guards]}", where)
-    cur = [n for n in FX.walk(fn["body"]) if FX.callee_info(n).get("path", "").endswith("io::Cursor::<T>::new")]
-    ck.require(len(cur) == 1, rule, "from_bytes:cursor-over-input", "from_bytes must read through one Cursor over the input slice", where)
+    # what is decoded is the caller's slice itself (read directly or through a Cursor over it), from its first byte
+    src = okv.info.get("src") if isinstance(okv, Opaque) else None
+    src = I.deref(src) if src is not None else None
+    if isinstance(src, Opaque) and src.what == "cursor":
+        src = I.deref(src.info.get("inner"))
+    ck.require(src is inp, rule, "from_bytes:cursor-over-input", f"from_bytes must decode the input slice itself (directly or through one Cursor over it); the decoder reads from {src!r}", where)
 
 
 def check_encode(ck, F, rule):
@@ -131,7 +136,7 @@ def extract_manifest(F):
     man["clone_ops"] = sorted(f"{it[1]['kind']}|{(it[1]['label'] or b'?').decode(errors='replace')}" for it, ctx in AN.flat_trace(I.trace.items) if it[0] == "op" and it[1]["tr"].is_clone())
     # prover RNG
     P = AN.prover_run(F)
-    rng = next((d["rng"] for d in P["I"].draw_log if d["fn"].endswith("prove_and_return_transcript")), None)
+    rng = next((d["rng"] for d in P["I"].draw_log if getattr(d["rng"], "kind", "") != "chacha_seeded"), None)
     if rng is not None and rng.kind == "transcript_rng":
         b = rng.info["builder"]
         man["prover_rng.rekey_labels"] = sorted({(r["label"] or b"?").decode(errors="replace") for r in b.rekeys})
